@@ -247,6 +247,133 @@ theorem ext_reserialise_fixpoint (b : Bytes) (e : ExtComm) (hb : ∀ x ∈ b, x 
     (encExt e).length = 8 ∧ decExt (encExt e ++ rest) = .ok e :=
   ⟨ext_encode_length e (ext_decoded_is_canon b e hb h), ext_decode_encode e rest (ext_decoded_is_canon b e hb h)⟩
 
+/-- the kinds whose 8 octets carry no reserved / normalised octet -/
+def NoReserved : ExtComm → Prop
+  | .twoOctetAs .. | .ipv4 .. | .fourOctetAs .. | .opaque .. | .unknown .. | .esImport .. | .routerMac .. => True
+  | _ => False
+
+private theorem be16_of (a b : Nat) (ha : a < 256) (hb : b < 256) : be16 (a * 256 + b) = [a, b] := by
+  have h1 : (a * 256 + b) / 256 % 256 = a := by omega
+  have h2 : (a * 256 + b) % 256 = b := by omega
+  simp [be16_eq, h1, h2]
+
+private theorem be32_of (a b c d : Nat) (ha : a < 256) (hb : b < 256) (hc : c < 256) (hd : d < 256) :
+    be32 (((a * 256 + b) * 256 + c) * 256 + d) = [a, b, c, d] := by
+  have h1 : (((a * 256 + b) * 256 + c) * 256 + d) / 16777216 % 256 = a := by omega
+  have h2 : (((a * 256 + b) * 256 + c) * 256 + d) / 65536 % 256 = b := by omega
+  have h3 : (((a * 256 + b) * 256 + c) * 256 + d) / 256 % 256 = c := by omega
+  have h4 : (((a * 256 + b) * 256 + c) * 256 + d) % 256 = d := by omega
+  simp [be32_eq, h1, h2, h3, h4]
+
+/-- partial converse: for the kinds without reserved octets, serialising the decoded value gives the
+    first 8 input octets back, for ALL octet strings.  (`_partial`: false for the other kinds, see
+    `ext_reserved_octets_counterexample` and `ext_linkbw_transitive_bit_counterexample`.) -/
+theorem ext_reserialise_identity_partial (b : Bytes) (e : ExtComm) (hb : ∀ x ∈ b, x < 256)
+    (h : decExt b = .ok e) (hk : NoReserved e) : encExt e = b.take 8 := by
+  by_cases hl : b.length < 8
+  · simp [decExt, hl] at h
+  · obtain ⟨a0, a1, a2, a3, a4, a5, a6, a7, r, rfl⟩ := len8 hl
+    have h0 : a0 < 256 := hb a0 (by simp)
+    have h1 : a1 < 256 := hb a1 (by simp)
+    have h2 : a2 < 256 := hb a2 (by simp)
+    have h3 : a3 < 256 := hb a3 (by simp)
+    have h4 : a4 < 256 := hb a4 (by simp)
+    have h5 : a5 < 256 := hb a5 (by simp)
+    have h6 : a6 < 256 := hb a6 (by simp)
+    have h7 : a7 < 256 := hb a7 (by simp)
+    have m1 := Nat.mod_eq_of_lt h1
+    have m0 := Nat.mod_eq_of_lt h0
+    have b23 := be16_of a2 a3 h2 h3
+    have b67 := be16_of a6 a7 h6 h7
+    have b4567 := be32_of a4 a5 a6 a7 h4 h5 h6 h7
+    have b2345 := be32_of a2 a3 a4 a5 h2 h3 h4 h5
+    simp only [decExt, if_neg hl, List.take_succ_cons, List.take_zero] at h
+    simp only [at', List.getD_cons_zero, List.getD_cons_succ, List.drop_succ_cons, List.drop_zero,
+      rd16_2, rd32_4, beq_iff_eq] at h
+    simp only [List.take_succ_cons, List.take_zero]
+    by_cases c0 : a0 = 0
+    · rw [if_pos c0] at h
+      by_cases c : a1 = 4
+      · simp [decTwoOctet, at', c] at h; subst h; exact absurd hk (by simp [NoReserved])
+      · simp [decTwoOctet, at', c, rd16_2, rd32_4] at h; subst h
+        simp [encExt, tbit, m1, b23, b4567, c0]
+    rw [if_neg c0] at h
+    by_cases c1 : a0 = 64
+    · rw [if_pos c1] at h
+      by_cases c : a1 = 4
+      · simp [decTwoOctet, at', c] at h; subst h; exact absurd hk (by simp [NoReserved])
+      · simp [decTwoOctet, at', c, rd16_2, rd32_4] at h; subst h
+        simp [encExt, tbit, m1, b23, b4567, c1]
+    rw [if_neg c1] at h
+    by_cases c2 : a0 = 1
+    · rw [if_pos c2] at h; cases h; simp [encExt, tbit, m1, b2345, b67, c2]
+    rw [if_neg c2] at h
+    by_cases c3 : a0 = 65
+    · rw [if_pos c3] at h; cases h; simp [encExt, tbit, m1, b2345, b67, c3]
+    rw [if_neg c3] at h
+    by_cases c4 : a0 = 2
+    · rw [if_pos c4] at h; cases h; simp [encExt, tbit, m1, b2345, b67, c4]
+    rw [if_neg c4] at h
+    by_cases c5 : a0 = 66
+    · rw [if_pos c5] at h; cases h; simp [encExt, tbit, m1, b2345, b67, c5]
+    rw [if_neg c5] at h
+    by_cases c6 : a0 = 3
+    · rw [if_pos c6] at h
+      by_cases d1 : a1 = 11
+      · simp [decOpaque, at', d1] at h; subst h; exact absurd hk (by simp [NoReserved])
+      by_cases d2 : a1 = 12
+      · simp [decOpaque, at', d2] at h; subst h; exact absurd hk (by simp [NoReserved])
+      by_cases d3 : a1 = 13
+      · simp [decOpaque, at', d3] at h; subst h; exact absurd hk (by simp [NoReserved])
+      simp [decOpaque, at', d1, d2, d3] at h; subst h
+      simp [encExt, tbit, c6]
+    rw [if_neg c6] at h
+    by_cases c7 : a0 = 67
+    · rw [if_pos c7] at h
+      by_cases d0 : a1 = 0
+      · simp [decOpaque, at', d0] at h; subst h; exact absurd hk (by simp [NoReserved])
+      simp [decOpaque, at', d0] at h; subst h
+      simp [encExt, tbit, c7]
+    rw [if_neg c7] at h
+    by_cases c8 : a0 = 6
+    · rw [if_pos c8] at h
+      simp only [decEvpn, at', List.getD_cons_zero, List.getD_cons_succ, beq_iff_eq] at h
+      by_cases e1 : a1 = 1
+      · rw [if_pos e1] at h; cases h; exact absurd hk (by simp [NoReserved])
+      rw [if_neg e1] at h
+      by_cases e2 : a1 = 2
+      · rw [if_pos e2] at h; cases h; simp [encExt, padTo, c8, e2]
+      rw [if_neg e2] at h
+      by_cases e0 : a1 = 0
+      · rw [if_pos e0] at h; cases h; exact absurd hk (by simp [NoReserved])
+      rw [if_neg e0] at h
+      by_cases e3 : a1 = 3
+      · rw [if_pos e3] at h; cases h; simp [encExt, c8, e3]
+      rw [if_neg e3] at h
+      split at h <;> cases h
+    rw [if_neg c8] at h
+    by_cases cx : (a0 == 128 || a0 == 129 || a0 == 130) = true
+    · rw [if_pos cx] at h
+      simp only [decExperimental, at', List.getD_cons_zero, List.getD_cons_succ, beq_iff_eq,
+        List.drop_succ_cons, List.drop_zero, List.take_succ_cons, List.take_zero, Bool.or_eq_true,
+        Bool.and_eq_true] at h
+      by_cases e1 : ((a1 = 6 ∨ a1 = 7) ∨ a1 = 8) ∨ a1 = 9
+      · rw [if_pos e1] at h; cases h
+      rw [if_neg e1] at h
+      by_cases e2 : a1 = 10 ∧ a2 = 19
+      · rw [if_pos e2] at h; cases h
+      rw [if_neg e2] at h
+      cases h
+      simp [encExt, m0]
+    rw [if_neg cx] at h
+    by_cases cm : a0 = 12
+    · rw [if_pos cm] at h
+      simp only [decMup] at h
+      split at h <;> cases h
+    rw [if_neg cm] at h
+    cases h
+    simp [encExt, m0]
+
 /-- the premises are satisfiable: a route target, decoded from octets followed by junk -/
 example : decExt [0, 2, 253, 232, 0, 0, 0, 100, 9, 9] = .ok (.twoOctetAs 2 65000 100 true) := by decide
 
